@@ -26,6 +26,8 @@ pub struct LogStatistics {
     pub live_keys: u64,
     pub dead_keys: u64,
     pub dead_bytes: u64,
+    /// How many of the dead keys are tombstones.
+    pub tombstones: u64,
 }
 
 impl LogStatistics {
@@ -34,8 +36,9 @@ impl LogStatistics {
         self.live_keys += 1;
     }
 
-    /// Add a dead key to the statistics where `nbytes` is the size of the entry on disk.
+    /// Add a tombstone to the statistics where `nbytes` is the size of the entry on disk.
     pub fn add_dead(&mut self, nbytes: u64) {
+        self.tombstones += 1;
         self.dead_keys += 1;
         self.dead_bytes += nbytes;
     }
